@@ -24,10 +24,10 @@ Definition M_OPTIONS : N := 4.
 
 Definition status_index (code : N) : N := match status_of_code code with Some s => s | None => 0 end.
 
-(* app.rs error_handler *)
+(* app.rs error_handler; the text around "<code> <phrase>" is read from the source on every run (TablesHttp.v): the
+   wording of the default error page is not part of any property *)
 Definition error_body (code : N) : bytes :=
-  [60;104;116;109;108;62;60;98;111;100;121;62;60;104;49;62] ++ dec_render code ++ [SP] ++ status_phrase (status_index code) ++
-  [60;47;104;49;62;60;47;98;111;100;121;62;60;47;104;116;109;108;62].
+  error_page_prefix ++ dec_render code ++ [SP] ++ status_phrase (status_index code) ++ error_page_suffix.
 Definition error_response (code : N) : response :=
   {| s_version := str_HTTP11; s_status := status_index code; s_headers := []; s_body := error_body code |}.
 
